@@ -69,6 +69,11 @@ func (w *World) harnessAPI(t *Thread, f *Frame, name string, args []Val) (Val, b
 		r := args[0].(BytesV).r
 		ok := and(not(w.recFn(r, "mErr", "Bool")), and(w.recFn(r, "mHas_token", "Bool"), w.recFn(r, "mIsStr_token", "Bool")))
 		return TupleV{ok, w.recFn(r, "mStr_token", "String")}, false
+	case "vpConcreteStr":
+		if s, ok := args[0].(string); ok {
+			return TupleV{s, true}, false
+		}
+		return TupleV{"", false}, false
 	case "vpAnd":
 		return and(args[0], args[1]), false
 	case "vpOr":
